@@ -32,6 +32,7 @@ drop operations while the same key still fires.
 """
 import copy
 import functools
+import operator
 
 from traits.api import (Any, HasTraits, Int, Instance, List, Dict, Set, Str,
                         Undefined, Uninitialized)
@@ -61,7 +62,16 @@ META = {
              "re-definitions (add_trait over an already defined class-level or dynamic name that holds "
              "a value on the path, then detaching ops; also a random op), 's' enumerated state "
              "snapshots (copy.copy / __getstate__() / trait_get() of a node whose defaults were never "
-             "read, after observe(); also a random op).  "
+             "read, after observe(); also a random op), 'g' enumerated and 'k' random histories over "
+             "containers nested in containers (dict of lists, list of lists, dict of sets, list of "
+             "dicts of nodes) observed through `items.items` / dict_items().list_items(): inner "
+             "containers enter by every in-place route (set, setdefault, update, |=, append, extend, "
+             "+=, *=, slice assignment ...) applied to the container object held in a variable and as "
+             "augmented assignment through the attribute, inner containers are mutated, probes insert a "
+             "fresh inner container holding a fresh node; flat containers get the operator routes "
+             "(|=, &=, -=, ^=, +=, *=) on the object and through the attribute in every stratum, 'l' "
+             "enumerated list-of-expressions registrations whose members are then observed on their own "
+             "by other handlers (also drawn at random).  "
              "distinct_nontrivial "
              "counts distinct (stratum, step kind, method, expression shape, text/object form, all-equal "
              "flag, expected, observed) signatures of steps in which the model expected an event, an "
@@ -88,7 +98,10 @@ META = {
                   "remove_trait_reached": 150, "readd_ops": 300, "readd_reached": 150,
                   "readd_events_matched": 250, "redefine_ops": 500, "redefine_valued_on_path": 120,
                   "snapshot_ops": 500, "snapshot_default_reads": 220, "histories_redefine": 50,
-                  "histories_snapshot": 44},
+                  "histories_snapshot": 44, "histories_nested": 130, "histories_routes": 120,
+                  "nested_outer_ops": 600, "nested_inner_ops": 220, "attribute_route_ops": 450,
+                  "nested_fresh_hooked": 1000, "nested_outer_probes": 6000,
+                  "histories_list_form": 40, "list_form_multi": 70},
         "thorough": {"evaluations": 6000000, "probe_matched": 200000, "probe_silent": 4000000,
                      "detached_silent": 80000, "container_events_matched": 240000,
                      "link_events_matched": 10000, "quiet_link_silent": 60000,
@@ -105,7 +118,10 @@ META = {
                      "remove_trait_reached": 1700, "readd_ops": 6000, "readd_reached": 1500,
                      "readd_events_matched": 4000, "redefine_ops": 12000,
                      "redefine_valued_on_path": 1800, "snapshot_ops": 12000,
-                     "snapshot_default_reads": 4500, "histories_redefine": 50, "histories_snapshot": 44},
+                     "snapshot_default_reads": 4500, "histories_redefine": 50, "histories_snapshot": 44,
+                     "histories_nested": 4000, "histories_routes": 120, "nested_outer_ops": 9000,
+                     "nested_inner_ops": 2500, "attribute_route_ops": 12000, "nested_fresh_hooked": 20000,
+                     "nested_outer_probes": 150000, "histories_list_form": 40, "list_form_multi": 900},
     },
     "assumptions": [
         "the reachability model (denotation of the mini-language over __dict__ values and the "
@@ -139,6 +155,11 @@ class Node(HasTraits):
     children = List(Instance("Node"))
     cmap = Dict(Str, Instance("Node"))
     cset = Set(Instance("Node"))
+    # containers nested in containers (the items of the inner ones are nodes)
+    groups = Dict(Str, List(Instance("Node")))
+    rows = List(List(Instance("Node")))
+    dsets = Dict(Str, Set(Instance("Node")))
+    ldicts = List(Dict(Str, Instance("Node")))
 
     def _lazy_default(self):
         return type(self)(ser=-1)
@@ -177,10 +198,12 @@ class TwinNode(EqNode):
 
 
 CLASS_TRAITS = ("ser", "value", "m1", "child", "other", "lazy", "cdef", "children", "cmap", "cset",
-                "trait_added", "trait_modified")
+                "groups", "rows", "dsets", "ldicts", "trait_added", "trait_modified")
 CLASS_META = {"m1": ("tag",), "child": ("link",), "other": ("link",), "ser": ("transient",)}
 LINKS = ("child", "other", "lazy", "cdef")
 CONTS = {"children": "list", "cmap": "dict", "cset": "set"}
+NESTED = {"groups": ("dict", "list"), "rows": ("list", "list"), "dsets": ("dict", "set"),
+          "ldicts": ("list", "dict")}           # name -> (outer kind, inner kind)
 INTS = ("value", "m1")
 # traits the histories may add to single instances: name -> (kind, metadata names)
 # (the kind is the one the name is first added with; a removed trait may come back
@@ -696,7 +719,7 @@ class World:
         self.retired_owner = {}    # id(retired container) -> (id(owner), trait name)
         self.selfdef = False       # sticky signature, see unread_default_assign
         self.added = {}            # id(node) -> {name: kind}
-        self.retired = []          # [(label, kind, container)]
+        self.retired = []          # [(label, kind, container, kind of its items if containers)]
         self.regs = []
         self.log = []
         self.models = []
@@ -732,6 +755,8 @@ class World:
         """Container kind of trait `name` of `obj` (None for links and ints)."""
         if name in CONTS:
             return CONTS[name]
+        if name in NESTED:
+            return NESTED[name][0]
         return "list" if self.added.get(id(obj), {}).get(name) == "list" else None
 
     def links_of(self, n):
@@ -739,6 +764,21 @@ class World:
 
     def conts_of(self, n):
         return [(nm, _ckind(c), c) for nm, c in n.__dict__.items() if _ckind(c)]
+
+    def all_conts(self, n):
+        """(label, kind, container, inner kind or None) incl. the inner containers of
+        the nested traits; inner kind is set for an outer container whose items are
+        containers."""
+        out = []
+        for nm, kd, c in self.conts_of(n):
+            if nm in NESTED:
+                out.append(("%r.%s" % (n, nm), kd, c, NESTED[nm][1]))
+                for key, inner in (c.items() if kd == "dict" else enumerate(c)):
+                    if _ckind(inner):
+                        out.append(("%r.%s[%r]" % (n, nm, key), _ckind(inner), inner, None))
+            else:
+                out.append(("%r.%s" % (n, nm), kd, c, None))
+        return out
 
     def names(self, obj, kind, arg):
         ad = self.added.get(id(obj), {})
@@ -760,10 +800,10 @@ class World:
                     return "%r.%s" % (n, key[2])
             return "?.%s" % key[2]
         for n in self.pool + self.temp:
-            for tr, _, c in self.conts_of(n):
+            for lab, _, c, _ in self.all_conts(n):
                 if id(c) == key[1]:
-                    return "%r.%s[]" % (n, tr)
-        for lab, _, c in self.retired:
+                    return lab + "[]"
+        for lab, _, c, _ in self.retired:
             if id(c) == key[1]:
                 return lab
         return "?[]"
@@ -846,7 +886,7 @@ class World:
         for _, v in self.links_of(n):
             out.append(v)
         for _, _, c in self.conts_of(n):
-            out.extend(c.values() if isinstance(c, dict) else list(c))
+            out.extend(_flat_nodes(c))
         return out
 
     def reaches(self, src, dst):
@@ -1022,7 +1062,8 @@ class World:
         cur = d.get(name, MISSING)
         ck = self.cont_kind(obj, name)
         if ck and old_present and old is not cur and _ckind(old):
-            self.retired.append(("old %r.%s#%d" % (obj, name, self.nstep), ck, old))
+            self.retired.append(("old %r.%s#%d" % (obj, name, self.nstep), ck, old,
+                                 NESTED[name][1] if name in NESTED else None))
             self.retired_owner[id(old)] = (id(obj), name)
             del self.retired[:-6]
         m0, m1 = self._post(exc, what)
@@ -1148,7 +1189,7 @@ class World:
         that were never read exactly like the read ops, silently."""
         what = "%s of %r" % ({"copy": "copy.copy", "getstate": "__getstate__()",
                               "trait_get": "trait_get()"}[how], obj)
-        unread = [nm for nm in LINKS + tuple(CONTS) + DYN_NAMES
+        unread = [nm for nm in LINKS + tuple(CONTS) + tuple(NESTED) + DYN_NAMES
                   if self.has(obj, nm) and nm not in obj.__dict__]
         keep = []
         if how == "copy":
@@ -1186,7 +1227,7 @@ class World:
         for n in self.pool + self.temp:
             for _, _, c in self.conts_of(n):
                 owners[id(c)] = n
-        for lab, _, c in self.retired:
+        for lab, _, c, _ in self.retired:
             owners.setdefault(id(c), None)
         val = obj.__dict__.get(name)
         box = []
@@ -1195,7 +1236,7 @@ class World:
         self.removed.setdefault(id(obj), set()).add(name)
         if _ckind(val):
             self.tainted_conts.append(val)
-        for _, _, c in self.retired:
+        for _, _, c, _ in self.retired:
             # its former values call back into the owner's (now missing) trait
             if self.retired_owner.get(id(c)) == (id(obj), name):
                 self.tainted_conts.append(c)
@@ -1231,6 +1272,14 @@ class World:
         key = ("c", id(c))
         exc = self._run(lambda: fn(c))
         after = _snap(c, kind)
+        if kind != "set":
+            # inner containers that left a container of containers must stay silent from now on
+            left_ = [x for x in (before.values() if kind == "dict" else before) if _ckind(x)
+                     and not any(x is y for y in (after.values() if kind == "dict" else after))]
+            for x in left_[:2]:
+                self.retired.append(("old inner %s of %s#%d" % (_ckind(x), what.split(" ")[0], self.nstep),
+                                     _ckind(x), x, None))
+            del self.retired[:-6]
         m0, m1 = self._post(exc, what)
         changed = _ids(before, kind) != _ids(after, kind)
         evcls = {"list": oapi.ListChangeEvent, "dict": oapi.DictChangeEvent,
@@ -1343,7 +1392,11 @@ class World:
                 root.observe(h, oapi.parse(text))
             elif form == "list":
                 parts = ast[1] if ast[0] == "par" else [ast]
-                root.observe(h, [render(p) if i % 2 == 0 else build(p) for i, p in enumerate(parts)])
+                flip = 1 if rs.get("list_first") == "expr" else 0
+                root.observe(h, [render(p) if (i + flip) % 2 == 0 else build(p)
+                                 for i, p in enumerate(parts)])
+                if len(parts) > 1:
+                    self.sink.count("list_form_multi")
             elif form == "graphs":
                 oapi.apply_observers(root, graphs=oapi.compile_str(text), handler=h,
                                      dispatcher=oapi.dispatch_same)
@@ -1396,6 +1449,12 @@ class World:
             return [op[3]] if op[3] is not None else []
         if k == "setcont":
             return [x[1] if isinstance(x, list) else x for x in op[3]]
+        if k == "setnest":
+            return _flat_idx(op[3])
+        if k in ("no", "na", "aug"):
+            return [i for x in op[4:] if isinstance(x, list) for i in _flat_idx(x)]
+        if k == "ni":
+            return self.targets(["l", op[1], op[2]] + list(op[4:]))
         if k in ("l", "d", "s"):
             out = []
             for x in op[4:]:
@@ -1490,6 +1549,53 @@ class World:
         elif k == "remove_trait":
             if op[2] in self.added.get(id(a), ()):
                 self.do_remove_trait(a, op[2])
+        elif k == "setnest":
+            tr = op[2]
+            self.do_assign(a, tr, self._outer_value(NESTED[tr], op[3]))
+        elif k in ("no", "na"):
+            # mutation of a container of containers: through the container object held in a
+            # variable ("no"), or as an augmented assignment through the attribute ("na")
+            tr, method = op[2], op[3]
+            okind, ikind = NESTED[tr]
+            c = self.read_cont(a, tr)
+            fn = self._outer_mutation(okind, ikind, c, method, op[4:])
+            if fn is None:
+                return
+            self.sink.count("nested_outer_ops")
+            self.do_cont(c, okind, fn, "%r.%s.%s%r" % (a, tr, method, tuple(op[4:])), method)
+            if k == "na":
+                self.sink.count("attribute_route_ops")
+                self.opclass = "augmented-assignment"
+                self.do_assign(a, tr, c)
+        elif k == "ni":
+            tr, sel, method = op[2], op[3], op[4]
+            okind, ikind = NESTED[tr]
+            c = self.read_cont(a, tr)
+            if not len(c):
+                return
+            inner = c.get(sel) if okind == "dict" else c[sel % len(c)] if isinstance(sel, int) else None
+            if inner is None:
+                return
+            kk = {"list": "l", "dict": "d", "set": "s"}[ikind]
+            fn = self._mutation(kk, inner, method, op[5:])
+            if fn is None:
+                return
+            self.opclass = {"l": "list-mutation", "d": "dict-mutation", "s": "set-mutation"}[kk]
+            self.sink.count("nested_inner_ops")
+            self.do_cont(inner, ikind, fn, "%r.%s[%r].%s%r" % (a, tr, sel, method, tuple(op[5:])), method)
+        elif k == "aug":
+            # augmented assignment of a flat container through the attribute:
+            # `a.tr OP= x` is read, in-place operator on the object, re-assignment
+            tr, opname = op[2], op[3]
+            kind = CONTS[tr]
+            c = self.read_cont(a, tr)
+            fn = self._mutation({"list": "l", "dict": "d", "set": "s"}[kind], c, "op_" + opname, op[4:])
+            if fn is None:
+                return
+            self.sink.count("attribute_route_ops")
+            self.do_cont(c, kind, fn, "%r.%s %s= %r" % (a, tr, opname, op[4]), "op_" + opname)
+            self.opclass = "augmented-assignment"
+            self.do_assign(a, tr, c)
         elif k == "redefine":
             if self.has(a, op[2]) and (op[2] in REDEFINABLE or op[2] in self.added.get(id(a), ())):
                 self.do_redefine(a, op[2])
@@ -1528,6 +1634,80 @@ class World:
 
     def _nodes(self, idxs):
         return [self.node(i) for i in idxs if self.node(i) is not None]
+
+    def _inner_value(self, ikind, spec):
+        """Plain inner container from a payload (pool indices / [key, index] pairs)."""
+        if ikind == "dict":
+            return {kk: self.node(i) for kk, i in spec if self.node(i) is not None}
+        vals = self._nodes(spec)
+        return set(vals) if ikind == "set" else vals
+
+    def _outer_value(self, kinds, payload):
+        okind, ikind = kinds
+        if okind == "dict":
+            return {kk: self._inner_value(ikind, sp) for kk, sp in payload}
+        return [self._inner_value(ikind, sp) for sp in payload]
+
+    def _outer_mutation(self, okind, ikind, c, method, args):
+        L = len(c)
+        iv = lambda sp: self._inner_value(ikind, sp)               # noqa: E731
+        if okind == "dict":
+            if method == "set":
+                key, v = args[0], iv(args[1])
+                return lambda c: c.__setitem__(key, v)
+            if method == "setdefault":
+                key, v = args[0], iv(args[1])
+                return lambda c: c.setdefault(key, v)
+            if method in ("update", "ior", "update_pairs"):
+                upd = {kk: iv(sp) for kk, sp in args[0]}
+                if method == "update":
+                    return lambda c: c.update(upd)
+                if method == "update_pairs":
+                    return lambda c: c.update(list(upd.items()))
+                return lambda c: operator.ior(c, upd)
+            if method in ("del", "pop"):
+                key = args[0]
+                if key not in c:
+                    return None
+                return (lambda c: c.__delitem__(key)) if method == "del" else (lambda c: c.pop(key))
+            if method == "clear":
+                return lambda c: c.clear()
+            if method == "popitem":
+                return (lambda c: c.popitem()) if L else None
+        else:
+            if method == "append":
+                v = iv(args[0])
+                return lambda c: c.append(v)
+            if method == "insert":
+                i, v = args[0] % (L + 1), iv(args[1])
+                return lambda c: c.insert(i, v)
+            if method == "setitem":
+                if not L:
+                    return None
+                i, v = args[0] % L, iv(args[1])
+                return lambda c: c.__setitem__(i, v)
+            if method in ("extend", "iadd"):
+                vs = [iv(sp) for sp in args[0]]
+                return (lambda c: c.extend(vs)) if method == "extend" else (lambda c: operator.iadd(c, vs))
+            if method == "setslice":
+                i, j = sorted((args[0] % (L + 1), args[1] % (L + 1)))
+                vs = [iv(sp) for sp in args[2]]
+                return lambda c: c.__setitem__(slice(i, j), vs)
+            if method in ("delitem", "pop"):
+                if not L:
+                    return None
+                i = args[0] % L
+                return (lambda c: c.__delitem__(i)) if method == "delitem" else (lambda c: c.pop(i))
+            if method == "imul":
+                if L > 3:
+                    return None
+                v = args[0]
+                return lambda c: operator.imul(c, v)
+            if method == "reverse":
+                return lambda c: c.reverse()
+            if method == "clear":
+                return lambda c: c.clear()
+        raise AssertionError((okind, method))
 
     def _mutation(self, k, c, method, args):
         L = len(c)
@@ -1624,6 +1804,14 @@ class World:
                     return None
                 v = args[0]
                 return lambda c: c.__imul__(v)
+            if method == "op_iadd":
+                bs = self._nodes(args[0])
+                return lambda c: operator.iadd(c, bs)
+            if method == "op_imul":
+                if L > 3:
+                    return None
+                v = args[0]
+                return lambda c: operator.imul(c, v)
         elif k == "d":
             if method == "set":
                 b = nd(args[1])
@@ -1644,6 +1832,9 @@ class World:
                 return lambda c: c.update(upd)
             if method == "clear":
                 return lambda c: c.clear()
+            if method in ("ior", "op_ior"):
+                upd = {kk: nd(i) for kk, i in args[0] if nd(i) is not None}
+                return lambda c: operator.ior(c, upd)
             if method == "respread":
                 # one update that stores the value of the first key under several keys
                 if not L:
@@ -1668,6 +1859,9 @@ class World:
             if method == "clear":
                 return lambda c: c.clear()
             bs = set(self._nodes(args[0]))
+            if method.startswith("op_"):
+                f = getattr(operator, method[3:])      # the in-place operators themselves
+                return lambda c: f(c, bs)
             if method == "update":
                 return lambda c: c.update(bs)
             if method == "ixor":
@@ -1689,8 +1883,8 @@ class World:
         for n in self.pool:
             if id(n) in self.tainted:
                 continue               # its containers may carry hooks remove_trait orphaned
-            for tr, kind, c in self.conts_of(n):
-                ent = ("%r.%s" % (n, tr), kind, c)
+            for lab, kind, c, inner in self.all_conts(n):
+                ent = (lab, kind, c, inner)
                 if any(("c", id(c)) in m.depths for m in self.models):
                     visited.append(ent)
                 else:
@@ -1698,35 +1892,44 @@ class World:
         r = self.nstep
         retired = [x for x in self.retired if not any(x[2] is t for t in self.tainted_conts)]
         chosen = _rotate(visited, r, 5) + _rotate(others, r, 2) + _rotate(retired, r, 2)
-        for lab, kind, c in chosen:
-            self.container_probe(lab, kind, c)
+        for lab, kind, c, inner in chosen:
+            self.container_probe(lab, kind, c, inner)
 
-    def container_probe(self, lab, kind, c):
+    def container_probe(self, lab, kind, c, inner=None):
         fresh = self.cls(ser=900 + len(self.temp))
         self.temp.append(fresh)
         if self.dyn:
             self._give_dyn(fresh)
         retired = lab.startswith("old ")
+        # what goes into the container: the fresh node, or - for a container of
+        # containers - a plain inner container holding it (traits stores a wrapped copy)
+        item = fresh if inner is None else [fresh] if inner == "list" else {fresh} if inner == "set" \
+            else {"_q": fresh}
         if kind == "list":
             if self.nstep % 2:
-                add = lambda c: c.append(fresh)                    # noqa: E731
+                add = lambda c: c.append(item)                     # noqa: E731
             else:
-                add = lambda c: c.insert(0, fresh)                 # noqa: E731
+                add = lambda c: c.insert(0, item)                  # noqa: E731
         elif kind == "dict":
-            add = lambda c: c.__setitem__("_p", fresh)             # noqa: E731
+            add = lambda c: c.__setitem__("_p", item)              # noqa: E731
         else:
-            add = lambda c: c.add(fresh)                           # noqa: E731
-        self.do_cont(c, kind, add, "probe %s <- fresh %r" % (lab, fresh), "probe-add")
+            add = lambda c: c.add(item)                            # noqa: E731
+        self.do_cont(c, kind, add, "probe %s <- %s" % (lab, "fresh %r" % fresh if inner is None else
+                                                        "%s of fresh %r" % (inner, fresh)), "probe-add")
         if retired:
             self.sink.count("retired_container_checks")
-        items = c.values() if kind == "dict" else c
-        if not any(x is fresh for x in items):
+        if inner:
+            self.sink.count("nested_outer_probes")
+        if not any(x is fresh for x in _flat_nodes(c)):
             return
         hooked = self.do_probe(fresh, "value", "fresh-in")
         if hooked:
             self.sink.count("fresh_hooked")
+            if inner:
+                self.sink.count("nested_fresh_hooked")
         if kind == "list":
-            i = [j for j, x in enumerate(c) if x is fresh][0]
+            i = [j for j, x in enumerate(c) if x is fresh or (inner and any(
+                y is fresh for y in _flat_nodes(x)))][0]
             rem = lambda c: c.__delitem__(i)                       # noqa: E731
         elif kind == "dict":
             rem = lambda c: c.__delitem__("_p")                    # noqa: E731
@@ -1740,7 +1943,9 @@ class World:
 
 OPCLASS = {"set": "assign-link", "setcont": "assign-container", "recont": "assign-equal-container",
            "read": "default-read", "add_trait": "add-trait", "remove_trait": "remove-trait",
-           "redefine": "redefine-trait", "snap": "snapshot",
+           "redefine": "redefine-trait", "snap": "snapshot", "setnest": "assign-nested-container",
+           "no": "nested-outer-mutation", "na": "nested-outer-mutation", "ni": "nested-inner-mutation",
+           "aug": "augmented-assignment",
            "observe": "registration"}
 
 
@@ -1756,6 +1961,28 @@ def _safe_eq(a, b):
         return bool(a == b)
     except Exception:  # noqa: BLE001
         return False
+
+
+def _flat_nodes(c):
+    """Nodes held by a container, through any nesting of containers."""
+    out = []
+    for x in (c.values() if isinstance(c, dict) else list(c)):
+        if isinstance(x, Node):
+            out.append(x)
+        elif isinstance(x, (list, dict, set)):
+            out.extend(_flat_nodes(x))
+    return out
+
+
+def _flat_idx(x):
+    """Pool indices in an operation payload (ints at any nesting depth)."""
+    if isinstance(x, bool):
+        return []
+    if isinstance(x, int):
+        return [x]
+    if isinstance(x, list):
+        return [i for y in x for i in _flat_idx(y)]
+    return []
 
 
 def _snap(c, kind):
@@ -1922,6 +2149,41 @@ def shrink(spec, actions, key):
     return ddmin(list(actions), test)
 
 
+def _inner_src(ikind, sp):
+    if ikind == "dict":
+        return "{" + ", ".join("%r: n%d" % (kk, i) for kk, i in sp) + "}"
+    body = ", ".join("n%d" % i for i in sp)
+    return "[" + body + "]" if ikind == "list" else "{" + body + "}" if sp else "set()"
+
+
+def _outer_args_src(okind, ikind, method, args):
+    """Source text of the arguments of an operation on a container of containers."""
+    def inner(sp):
+        return _inner_src(ikind, sp)
+    if okind == "dict":
+        if method in ("set", "setdefault"):
+            return "%r, %s" % (args[0], inner(args[1]))
+        if method in ("update", "update_pairs", "ior"):
+            return "{" + ", ".join("%r: %s" % (kk, inner(sp)) for kk, sp in args[0]) + "}"
+        return ", ".join(map(repr, args))
+    if method == "append":
+        return inner(args[0])
+    if method in ("insert", "setitem"):
+        return "%d, %s" % (args[0], inner(args[1]))
+    if method in ("extend", "iadd"):
+        return "[" + ", ".join(inner(sp) for sp in args[0]) + "]"
+    if method == "setslice":
+        return "slice(*sorted((%d, %d))), [%s]" % (args[0], args[1], ", ".join(inner(sp) for sp in args[2]))
+    return ", ".join(map(repr, args))
+
+
+def _nest_src(kinds, payload):
+    okind, ikind = kinds
+    if okind == "dict":
+        return "{" + ", ".join("%r: %s" % (kk, _inner_src(ikind, sp)) for kk, sp in payload) + "}"
+    return "[" + ", ".join(_inner_src(ikind, sp) for sp in payload) + "]"
+
+
 def _trait_src(name, kind=None):
     if name in ("x0", "y0", "items"):
         return {"x0": "Int(tag=True)", "y0": "Int()", "items": "Instance(Node, link=True)"}[name]
@@ -1972,6 +2234,27 @@ def script(spec, actions):
         elif k == "redefine":
             lines.append("n%d.add_trait(%r, <same kind of trait>)   # the name is already defined"
                          % (act[1], act[2]))
+        elif k == "setnest":
+            lines.append("n%d.%s = %s" % (act[1], act[2], _nest_src(NESTED[act[2]], act[3])))
+        elif k in ("no", "na"):
+            okind, ikind = NESTED[act[2]]
+            args = _outer_args_src(okind, ikind, act[3], act[4:])
+            if k == "na":
+                lines.append("n%d.%s %s= %s   # augmented assignment through the attribute"
+                             % (act[1], act[2], {"ior": "|", "iadd": "+", "imul": "*"}[act[3]], args))
+            else:
+                lines.append("c = n%d.%s; c.%s(%s)   # on the container object; list positions modulo len"
+                             % (act[1], act[2], {"ior": "__ior__", "iadd": "__iadd__", "imul": "__imul__",
+                                                 "set": "__setitem__", "del": "__delitem__",
+                                                 "delitem": "__delitem__", "setitem": "__setitem__",
+                                                 "update_pairs": "update"}.get(act[3], act[3]), args))
+        elif k == "ni":
+            lines.append("n%d.%s[%r].%s(%s)   # inner container; ints are pool indices / positions modulo len"
+                         % (act[1], act[2], act[3], act[4], ", ".join(map(repr, act[5:]))))
+        elif k == "aug":
+            lines.append("n%d.%s %s= %r   # augmented assignment through the attribute, ints are pool indices"
+                         % (act[1], act[2], {"ior": "|", "iadd": "+", "imul": "*", "ixor": "^", "isub": "-",
+                                             "iand": "&"}[act[3]], act[4]))
         elif k == "snap":
             lines.append({"copy": "copy.copy(n%d)", "getstate": "n%d.__getstate__()",
                           "trait_get": "n%d.trait_get()"}[act[2]] % act[1] + "   # result discarded")
@@ -2036,14 +2319,15 @@ def _wchoice(rng, table):
 
 
 OP_TABLE = [("set", 16), ("setcont", 8), ("recont", 5), ("l", 24), ("d", 12), ("s", 10),
-            ("read", 6), ("add_trait", 4), ("redefine", 4), ("snap", 4)]
+            ("read", 6), ("add_trait", 4), ("redefine", 4), ("snap", 4), ("aug", 4)]
 L_METHODS = [("append", 5), ("extend", 4), ("iadd", 1), ("insert", 3), ("setitem", 5), ("setslice", 3),
              ("extslice", 1), ("delitem", 3), ("delslice", 2), ("pop", 2), ("remove", 3), ("reverse", 1),
              ("sort", 1), ("clear", 1), ("imul", 1), ("reslice", 5), ("extfirst", 1)]
 D_METHODS = [("set", 6), ("setdefault", 1), ("del", 3), ("pop", 2), ("update", 2), ("clear", 1),
-             ("popitem", 1), ("respread", 1)]
+             ("popitem", 1), ("respread", 1), ("ior", 2)]
 S_METHODS = [("add", 6), ("discard", 3), ("remove", 2), ("pop", 1), ("clear", 1), ("update", 2),
-             ("ixor", 1), ("isub", 1), ("iand", 1)]
+             ("ixor", 1), ("isub", 1), ("iand", 1), ("op_ior", 1), ("op_ixor", 1), ("op_isub", 1),
+             ("op_iand", 1)]
 
 
 def gen_op(rng, W, names, cyclic):
@@ -2099,6 +2383,18 @@ def gen_op(rng, W, names, cyclic):
                     0.55 if "xlink" in names else 0.1):
                 tr = "xlink"
             op = ["set", a, tr, pick_b(a)]
+        elif k == "aug":
+            tr = pick_cont()
+            kd = CONTS[tr]
+            if kd == "list":
+                op = ["aug", a, tr, "iadd", [pick_b(a, False) for _ in range(rng.randint(1, 2))]] \
+                    if rng.random() < 0.75 else ["aug", a, tr, "imul", rng.choice([0, 2])]
+            elif kd == "dict":
+                op = ["aug", a, tr, "ior", [[rng.choice(KEYS), pick_b(a, False)]
+                                            for _ in range(rng.randint(1, 2))]]
+            else:
+                op = ["aug", a, tr, rng.choice(["ior", "ior", "ixor", "isub", "iand"]),
+                      [pick_b(a, False) for _ in range(rng.randint(1, 2))]]
         elif k == "redefine":
             # add_trait over a name that is already defined, preferably one that holds a
             # value and lies on the path of an observed expression
@@ -2185,7 +2481,7 @@ def gen_op(rng, W, names, cyclic):
                 op = ["d", a, tr, m, rng.choice(KEYS), pick_b(a, False)]
             elif m in ("del", "pop"):
                 op = ["d", a, tr, m, rng.choice(KEYS)]
-            elif m == "update":
+            elif m in ("update", "ior"):
                 op = ["d", a, tr, m, [[rng.choice(KEYS), pick_b(a, False)]
                                       for _ in range(rng.randint(1, 2))]]
             else:
@@ -2239,6 +2535,8 @@ def make_reg(rng, ast, root, cyc=False):
         show = describe_ast(ast)
     else:
         form = rng.choice(TEXT_FORMS + OBJECT_FORMS + ("text", "text", "expr"))
+        if ast[0] == "par" and rng.random() < 0.35:
+            form = "list"              # documented list-of-expressions form, one entry per member
         text = render(ast)
         show = repr(text) if form in TEXT_FORMS else describe_ast(ast)
         # the text must mean what the AST means (our parser is the reader of the text)
@@ -2247,7 +2545,7 @@ def make_reg(rng, ast, root, cyc=False):
     if form == "paths" and len(dedupe_paths(den(ast))) > MAX_FLAT_PATHS:
         form = "expr"              # every `items` multiplies the flattened spelling by four
     return {"root": root, "ast": ast, "text": text, "form": form, "show": show,
-            "bound": rng.random() < 0.3}
+            "bound": rng.random() < 0.3, "list_first": rng.choice(["text", "expr"])}
 
 
 def pick_ast(rng, ctx, cyc):
@@ -2303,6 +2601,22 @@ def seed_ops(rng, paths, root, npool, cyc, pre=True):
             ops.append(["set", cur, arg, n])
             cur = n
             i += 1
+        elif arg in NESTED:
+            okind, ikind = NESTED[arg]
+            n = nxt()
+            extra = [nxt() for _ in range(rng.choice([0, 1, 2]))]
+
+            def inner(ms):
+                return [[KEYS[q % 3], b] for q, b in enumerate(ms)] if ikind == "dict" else list(ms)
+            inners = [inner([n] + extra[:1])] + ([inner(extra[1:])] if rng.random() < 0.5 else [])
+            rng.shuffle(inners)
+            ops.append(["setnest", cur, arg, [[KEYS[q], sp] for q, sp in enumerate(inners)]
+                        if okind == "dict" else inners])
+            cur = n
+            i += 1
+            for _ in range(2):
+                if i < len(path) and (path[i][0] in CONT_CLS or path[i][1] == "items"):
+                    i += 1
         elif arg in CONTS or arg == "xlist":
             n = nxt()
             members = [n] + [nxt() for _ in range(rng.choice([0, 0, 1, 2]))]
@@ -2320,6 +2634,127 @@ def seed_ops(rng, paths, root, npool, cyc, pre=True):
         else:
             break
     return ops
+
+
+def gen_nested_expr(rng):
+    """Expression through a container of containers (typed)."""
+    def conn():
+        return rng.choice("..:")
+    tr = rng.choice(list(NESTED))
+    okind, ikind = NESTED[tr]
+    r = rng.random()
+    explicit = rng.random() < 0.15          # dict_items()/list_items()/set_items() instead of `items`
+    it1 = (okind + "_items", False) if explicit else ("items",)
+    it2 = (ikind + "_items", False) if explicit else ("items",)
+    if r < 0.06:
+        body = ("name", tr)
+    elif r < 0.14:
+        body = ("ser", ("name", tr), conn(), it1)
+    elif r < 0.30:
+        body = ("ser", ("ser", ("name", tr), conn(), it1), conn(), it2)
+    else:
+        tail = rng.choice([("name", "value"), ("name", "value"), ("name", "value"),
+                           ("par", [("name", "value"), ("name", "m1")]), ("any",), ("meta", "tag"),
+                           ("ser", ("name", "child"), conn(), ("name", "value")),
+                           ("ser", ("ser", ("name", "children"), conn(), ("items",)), conn(),
+                            ("name", "value"))])
+        body = ("ser", ("ser", ("ser", ("name", tr), conn(), it1), conn(), it2), conn(), tail)
+    pre = rng.choice([None, None, None, ("name", "child"), ("name", "other"),
+                      ("par", [("name", "child"), ("name", "other")]), ("name", "cdef"),
+                      ("ser", ("name", "children"), conn(), ("items",))])
+    return body if pre is None else ("ser", pre, conn(), body)
+
+
+def gen_nested_op(rng, W, names, cyclic):
+    """Operation on a container of containers: outer mutations (inner containers come
+    and go) on the container object or through the attribute, inner mutations,
+    assignment of a whole structure."""
+    n = len(W.pool)
+    visited = {key[1] for m in W.models for key in m.depths if key[0] == "t"}
+    vis = [i for i, p_ in enumerate(W.pool) if id(p_) in visited]
+    pref = [t for t in NESTED if t in names] or list(NESTED)
+
+    def spec(ikind):
+        ms = [rng.randrange(n) for _ in range(rng.randint(0, 3))]
+        if len(ms) > 1 and rng.random() < 0.25:
+            ms[1] = ms[0]
+        return [[rng.choice(KEYS), b] for b in ms] if ikind == "dict" else ms
+    for _ in range(10):
+        a = rng.choice(vis) if vis and rng.random() < 0.7 else rng.randrange(n)
+        tr = rng.choice(pref) if rng.random() < 0.85 else rng.choice(list(NESTED))
+        okind, ikind = NESTED[tr]
+        cur = W.pool[a].__dict__.get(tr)
+        r = rng.random()
+        if r < 0.10:
+            k_ = rng.randint(0, 3)
+            op = ["setnest", a, tr, [[KEYS[q % 3], spec(ikind)] for q in range(k_)] if okind == "dict"
+                  else [spec(ikind) for _ in range(k_)]]
+        elif r < 0.16:
+            op = ["recont", a, tr]
+        elif r < 0.62:
+            route = "na" if rng.random() < 0.22 else "no"
+            if okind == "dict":
+                m = _wchoice(rng, [("ior", 4)] if route == "na" else
+                             [("set", 3), ("setdefault", 1), ("update", 2), ("update_pairs", 1), ("ior", 4),
+                              ("del", 2), ("pop", 1), ("clear", 1), ("popitem", 1)])
+                if m in ("set", "setdefault"):
+                    op = [route, a, tr, m, rng.choice(KEYS), spec(ikind)]
+                elif m in ("update", "update_pairs", "ior"):
+                    op = [route, a, tr, m, [[rng.choice(KEYS), spec(ikind)] for _ in range(rng.randint(1, 2))]]
+                elif m in ("del", "pop"):
+                    op = [route, a, tr, m, rng.choice(list(cur) if cur else KEYS)]
+                else:
+                    op = [route, a, tr, m]
+            else:
+                m = _wchoice(rng, [("iadd", 3), ("imul", 1)] if route == "na" else
+                             [("append", 3), ("insert", 1), ("setitem", 2), ("extend", 2), ("iadd", 3),
+                              ("setslice", 2), ("delitem", 2), ("pop", 1), ("imul", 1), ("reverse", 1),
+                              ("clear", 1)])
+                if m == "append":
+                    op = [route, a, tr, m, spec(ikind)]
+                elif m in ("insert", "setitem"):
+                    op = [route, a, tr, m, rng.randrange(5), spec(ikind)]
+                elif m in ("extend", "iadd"):
+                    op = [route, a, tr, m, [spec(ikind) for _ in range(rng.randint(1, 2))]]
+                elif m == "setslice":
+                    op = [route, a, tr, m, rng.randrange(5), rng.randrange(5),
+                          [spec(ikind) for _ in range(rng.randint(0, 2))]]
+                elif m in ("delitem", "pop"):
+                    op = [route, a, tr, m, rng.randrange(5)]
+                elif m == "imul":
+                    op = [route, a, tr, m, rng.choice([0, 2])]
+                else:
+                    op = [route, a, tr, m]
+        else:
+            sel = rng.choice(list(cur) if cur else KEYS) if okind == "dict" else rng.randrange(4)
+            b = rng.randrange(n)
+            if ikind == "list":
+                m = _wchoice(rng, [("append", 4), ("extend", 2), ("iadd", 2), ("insert", 1), ("setitem", 2),
+                                   ("delitem", 2), ("pop", 1), ("remove", 1), ("clear", 1), ("reverse", 1),
+                                   ("imul", 1), ("reslice", 1)])
+                args = {"append": [b], "extend": [[b, rng.randrange(n)]], "iadd": [[b]],
+                        "insert": [rng.randrange(4), b], "setitem": [rng.randrange(4), b],
+                        "delitem": [rng.randrange(4)], "pop": [rng.randrange(4)], "remove": [rng.randrange(4)],
+                        "clear": [], "reverse": [], "imul": [rng.choice([0, 2])],
+                        "reslice": [rng.randrange(4), rng.randrange(4), rng.choice(["dup", "tail", "plus"]), 0]}[m]
+            elif ikind == "set":
+                m = _wchoice(rng, [("add", 4), ("discard", 2), ("update", 2), ("op_ior", 2), ("op_ixor", 1),
+                                   ("op_isub", 1), ("pop", 1), ("clear", 1)])
+                args = [] if m in ("pop", "clear") else [b] if m in ("add", "discard") else \
+                    [[b, rng.randrange(n)]]
+            else:
+                m = _wchoice(rng, [("set", 4), ("update", 2), ("ior", 2), ("del", 2), ("pop", 1), ("clear", 1),
+                                   ("setdefault", 1)])
+                key = rng.choice(KEYS)
+                args = [key, b] if m in ("set", "setdefault") else [key] if m in ("del", "pop") else \
+                    [] if m == "clear" else [[[key, b]]]
+            op = ["ni", a, tr, sel, m] + args
+        if not cyclic and W.would_cycle(op):
+            continue
+        if W.touches_tainted(op):
+            continue
+        return op
+    return ["read", 0, "child"]
 
 
 def gen_dyn_expr(rng, name, kind):
@@ -2371,9 +2806,21 @@ def random_history(ctx, rng, stratum):
         if dyn and (k == 0 or rng.random() < 0.5):
             ast, terminal = gen_dyn_expr(rng, dyn["name"], dyn["kind"])
             dyn["terminal"] = dyn["terminal"] and terminal
+        elif stratum == "k" and (k == 0 or rng.random() < 0.5):
+            ast = gen_nested_expr(rng)
         else:
             ast = pick_ast(rng, ctx, cyc)
         regs.append(make_reg(rng, ast, root, cyc))
+    if regs[0]["form"] == "list" and regs[0]["ast"][0] == "par" and rng.random() < 0.7:
+        # the members of a list-form registration are also observed on their own (other
+        # handler): each registration must follow its own expression only
+        member = rng.choice(regs[0]["ast"][1][:2])
+        alone = make_reg(rng, member, regs[0]["root"], cyc)
+        if alone["form"] == "list":
+            alone["form"] = "text"
+            alone["show"] = repr(alone["text"])
+        regs[1:] = [alone]
+        nreg = 2
     spec = {"alleq": rng.random() < 0.25, "npool": npool, "regs": regs, "stratum": stratum,
             "cflavour": rng.choice(["override", "any"])}
     if dyn:
@@ -2472,6 +2919,8 @@ def random_history(ctx, rng, stratum):
                         if idxs and any(c[j] is objs[0] for j in idxs):
                             return ["l", ai, tr, rng.choice(["delitem", "pop", "remove"]),
                                     rng.choice(idxs)]
+        if stratum == "k" and rng.random() < 0.6:
+            return gen_nested_op(rng, W, names, cyc)
         return gen_op(rng, W, names, cyc)
     return spec, [], gen
 
@@ -2584,6 +3033,102 @@ def redefine_snapshot_cases():
         for how in ("copy", "getstate", "trait_get"):
             for form in ("text", "expr"):
                 out.append(("s", how, None, text, form, pre + [["observe", 0], ["snap", own, how]] + post))
+    return out
+
+
+def nested_route_cases():
+    """Stratum 'g' (enumerated): a container enters a container of containers (or an
+    item a flat container) by every in-place route - on the container object held in
+    a variable and as an augmented assignment through the attribute - then is used."""
+    out = []
+    for tr, (okind, ikind) in NESTED.items():
+        def sp(*idx):
+            return [[KEYS[q], b] for q, b in enumerate(idx)] if ikind == "dict" else list(idx)
+        texts = ["%s.items.items.value" % tr, "%s:items:items:value" % tr, "%s.items.items" % tr,
+                 "child.%s.items.items.value" % tr]
+        if okind == "dict":
+            pre0 = [["setnest", 0, tr, [["x", sp(1, 2)]]]]
+            routes = [("set", ["no", 0, tr, "set", "y", sp(3)]),
+                      ("setdefault", ["no", 0, tr, "setdefault", "y", sp(3)]),
+                      ("update", ["no", 0, tr, "update", [["y", sp(3)]]]),
+                      ("update-pairs", ["no", 0, tr, "update_pairs", [["y", sp(3)]]]),
+                      ("ior-new-key", ["no", 0, tr, "ior", [["y", sp(3)]]]),
+                      ("ior-old-key", ["no", 0, tr, "ior", [["x", sp(3)]]]),
+                      ("ior-both", ["no", 0, tr, "ior", [["x", sp(1)], ["z", sp(3)]]]),
+                      ("attr-ior", ["na", 0, tr, "ior", [["y", sp(3)]]])]
+            sel, drop = {"ior-old-key": "x", "ior-both": "z"}, "del"
+        else:
+            pre0 = [["setnest", 0, tr, [sp(1, 2)]]]
+            routes = [("append", ["no", 0, tr, "append", sp(3)]),
+                      ("insert", ["no", 0, tr, "insert", 0, sp(3)]),
+                      ("setitem", ["no", 0, tr, "setitem", 0, sp(3)]),
+                      ("extend", ["no", 0, tr, "extend", [sp(3), sp(2)]]),
+                      ("iadd", ["no", 0, tr, "iadd", [sp(3)]]),
+                      ("setslice", ["no", 0, tr, "setslice", 0, 1, [sp(3), sp(1)]]),
+                      ("imul", ["no", 0, tr, "imul", 2]),
+                      ("attr-iadd", ["na", 0, tr, "iadd", [sp(3)]]),
+                      ("attr-imul", ["na", 0, tr, "imul", 2])]
+            sel, drop = {}, "delitem"
+        use = {"list": ["append", 4], "set": ["add", 4], "dict": ["set", "z", 4]}[ikind]
+        for text in texts:
+            child = text.startswith("child")
+            for rname, rop in routes:
+                for form in ("text", "expr"):
+                    if form == "expr" and text != texts[0]:
+                        continue
+                    own = 1 if child else 0
+                    fix = lambda o: [o[0], own] + o[2:]               # noqa: E731
+                    s_ = sel.get(rname, "y") if okind == "dict" else (0 if rname in ("insert", "setitem",
+                                                                                     "setslice") else -1)
+                    acts = ([["set", 0, "child", 1]] if child else []) + [fix(o) for o in pre0] \
+                        + [["observe", 0], fix(rop), ["ni", own, tr, s_] + use,
+                           ["no", own, tr, drop, s_ if okind == "dict" else s_ % 2]]
+                    out.append((tr, rname, text, form, acts))
+    # explicit (non-optional) item observers through the nested dict of lists
+    ast = ("ser", ("ser", ("ser", ("name", "groups"), ".", ("dict_items", False)), ".",
+                   ("list_items", False)), ".", ("name", "value"))
+    for rname, rop in (("ior-new-key", ["no", 0, "groups", "ior", [["y", [3]]]]),
+                       ("attr-ior", ["na", 0, "groups", "ior", [["y", [3]]]]),
+                       ("update", ["no", 0, "groups", "update", [["y", [3]]]])):
+        out.append(("groups", rname, ast, "expr",
+                    [["setnest", 0, "groups", [["x", [1, 2]]]], ["observe", 0], rop,
+                     ["ni", 0, "groups", "y", "append", 4]]))
+    # flat containers: the operators themselves, on the object and through the attribute
+    flat = [("cmap", "cmap.items.value", [["setcont", 0, "cmap", [["x", 1]]]],
+             [["d", 0, "cmap", "ior", [["y", 3]]], ["aug", 0, "cmap", "ior", [["z", 4]]],
+              ["d", 0, "cmap", "del", "y"]]),
+            ("cset", "cset.items.value", [["setcont", 0, "cset", [1, 2]]],
+             [["s", 0, "cset", "op_ior", [3]], ["s", 0, "cset", "op_ixor", [3, 4]],
+              ["aug", 0, "cset", "ior", [3]], ["aug", 0, "cset", "isub", [1]], ["s", 0, "cset", "op_iand", [2]]]),
+            ("children", "children.items.value", [["setcont", 0, "children", [1]]],
+             [["aug", 0, "children", "iadd", [3, 3]], ["aug", 0, "children", "imul", 2],
+              ["l", 0, "children", "delitem", 0], ["aug", 0, "children", "imul", 0]])]
+    for tr, text, pre, post in flat:
+        for form in ("text", "expr"):
+            for quiet in (False, True):
+                t = text.replace(".items.", ":items:") if quiet else text
+                out.append((tr, "flat-operators", t, form, pre + [["observe", 0]] + post))
+    return out
+
+
+def list_form_cases():
+    """Stratum 'l' (enumerated): the documented list-of-expressions form, then the
+    members observed on their own by other handlers (same root, other root)."""
+    out = []
+    pairs = [("child.value", "other.m1"), ("value", "children.items.value"),
+             ("cmap.items.value", "cset.items:m1"), ("lazy.value", "m1"), ("child.*", "other.+tag"),
+             ("children.items", "child.children.items.value")]
+    pre = [["set", 0, "child", 1], ["set", 0, "other", 2], ["setcont", 0, "children", [3]],
+           ["setcont", 0, "cmap", [["x", 3]]], ["setcont", 0, "cset", [4]], ["set", 4, "child", 1],
+           ["set", 4, "other", 3], ["setcont", 1, "children", [2]]]
+    post = [["set", 0, "other", 4], ["l", 0, "children", "append", 2], ["s", 0, "cset", "add", 1]]
+    for e, f in pairs:
+        for first in ("text", "expr"):
+            for alone_form in ("text", "expr", "parse", "func", "graphs"):
+                for root2 in (0, 4):
+                    regs = [("%s, %s" % (e, f), "list", 0, first), (e, alone_form, root2, "text"),
+                            (f, alone_form, 0, "text")]
+                    out.append((e, f, regs, pre + [["observe", 0], ["observe", 1], ["observe", 2]] + post))
     return out
 
 
@@ -2846,6 +3391,49 @@ def run(ctx):
                     report(ctx, spec, actions, res, cid)
         finally:
             ctx.end()
+    # ---- stratum l: list-of-expressions form, members observed on their own -------------
+    for li, (e, f, rdefs, acts) in enumerate(list_form_cases()):
+        if not ctx.mine(li):
+            continue
+        cid = "l:%d" % li
+        if not ctx.begin(cid, {"list": [e, f], "alone": rdefs[1][1], "root2": rdefs[1][2]}):
+            continue
+        try:
+            regs = []
+            for text, form, root, first in rdefs:
+                ast = parse_text(text)
+                regs.append({"root": root, "ast": ast, "text": text, "form": form, "bound": False,
+                             "show": repr(text) if form in TEXT_FORMS else describe_ast(ast),
+                             "list_first": first})
+            spec = {"alleq": False, "npool": 5, "regs": regs, "stratum": "l"}
+            actions = [list(a) for a in acts]
+            res = execute(spec, actions, ctx)
+            ctx.count("histories_list_form")
+            if res["key"]:
+                report(ctx, spec, actions, res, cid)
+        finally:
+            ctx.end()
+    # ---- stratum g: every in-place route into (nested) containers (enumerated) ------------
+    for gi, (tr, rname, text, form, acts) in enumerate(nested_route_cases()):
+        if not ctx.mine(gi):
+            continue
+        cid = "g:%d" % gi
+        if not ctx.begin(cid, {"trait": tr, "route": rname, "expr": repr(text)[:80], "form": form}):
+            continue
+        try:
+            ast = text if isinstance(text, tuple) else parse_text(text)
+            txt = None if isinstance(text, tuple) else text
+            for alleq in (False, True):
+                rs = {"root": 0, "ast": ast, "text": txt, "form": form,
+                      "show": repr(txt) if form == "text" else describe_ast(ast), "bound": False}
+                spec = {"alleq": alleq, "npool": 5, "regs": [rs], "stratum": "g"}
+                actions = [list(a) for a in acts]
+                res = execute(spec, actions, ctx)
+                ctx.count("histories_routes")
+                if res["key"]:
+                    report(ctx, spec, actions, res, cid)
+        finally:
+            ctx.end()
     # ---- stratum e: equal twins in an observed set (enumerated) ---------------------
     ei = 0
     for text in ("cset.items", "cset.items.value", "cset:items.value", "child.cset.items.value",
@@ -2875,7 +3463,7 @@ def run(ctx):
                     ctx.end()
     # ---- strata t / c: random histories ------------------------------------------
     for stratum, nh in (("t", ctx.scale(1600, 60000)), ("c", ctx.scale(600, 20000)),
-                        ("r", ctx.scale(400, 12000))):
+                        ("r", ctx.scale(400, 12000)), ("k", ctx.scale(400, 12000))):
         for h in range(nh):
             if not ctx.mine(h):
                 continue
@@ -2888,7 +3476,7 @@ def run(ctx):
                 res = execute(spec, actions, ctx, gen)
                 W = res["world"]
                 ctx.count({"t": "histories_acyclic", "c": "histories_cyclic",
-                           "r": "histories_dynamic"}[stratum])
+                           "r": "histories_dynamic", "k": "histories_nested"}[stratum])
                 if W.multi:
                     ctx.count("multi_level_histories")
                     if stratum == "t":
